@@ -23,7 +23,7 @@ class FakeQuery:
             if t not in self.tables:
                 self.tables.append(t)
     def _clone(self):
-        q = FakeQuery.__new__(FakeQuery)
+        q = type(self).__new__(type(self))
         q.sess = self.sess; q.entities = self.entities
         q.tables = list(self.tables); q.conds = list(self.conds); q.order = list(self.order)
         return q
